@@ -1135,22 +1135,24 @@ example : ClockOk (Msg.init 0 [{ maxRtx := 1 }]) gevs ∧
   then NACK; RST branch likewise); S reports the outcome and then sends.  `sim_order_witness`: with a message id re-used while
   the first use is still in flight no translation at all can give the full observation lists in the same order.
 
-Scope `SimF.RunInF` (threaded, decidable): `setNow` (monotone), `prepare`, `submit` of a Confirmable with `T > 0` inside the
-no-wrap range D7 — with or without NSTART room, at any instant —, `rxAck`, `rxRst`, `rxBad` (an ACK with an invalid / request
-code — for S an `ack`: the BAD_RESPONSE NACK is not an outcome of S) and `connect` at any instant; sessions `SessOk`.  Not in the
-scope: NON messages and cancel-by-token (no counterpart in S), `hold` / `disconnect` (as in section (7)). -/
+Scope: `RunG`, THE WHOLE C06 ALPHABET of section (7) (`SimF.RunInF` is the same predicate): `setNow` (monotone), `prepare`,
+`submit` of a Confirmable with `T > 0` inside the no-wrap range D7 — with or without NSTART room, at any instant — or of a NON
+(transmitted at once, never queued: nothing for S, and not among the Confirmable transmissions compared), `rxAck`, `rxRst`,
+`rxBad` (an ACK with an invalid / request code — for S an `ack`: the BAD_RESPONSE NACK is not an outcome of S), `rxNon` (a
+response: `coap_cancel_all_messages` — for S one `ack` per removed node, each followed by the `send`s its released slot lets out)
+and `connect` at any instant; sessions `SessOk`.  Not in the scope: `hold` / `disconnect` (as in section (7)). -/
 open Coap.Sim Coap.Sched in
 /-- **m_refines_timer_from** (general form): from any M state satisfying the invariant (delay queues allowed) and any S
 state related to it, for EVERY event list: the runs end in related states, the invariant still holds, and every `send` of
 the S run carries the `coap_calc_timeout` value `P` vouches for and the session's MAX_RETRANSMIT. -/
 theorem m_refines_timer_from (par : Nat → Msg.Sess) (P : Nat → Nat → Nat → Prop) (hp : GPar par)
     (evs : List Msg.Ev) (l : Msg.L) (ts : Timer.TS) (hi : FInv False par P l) (hr : SimF.RelF (mxOf par) l ts)
-    (hin : SimF.RunInF l evs)
+    (hin : RunG l evs)
     (hP : ∀ s mid r, Msg.Ev.submit s true mid r ∈ evs →
       P s mid (calcTimeout (par s).atI (par s).atF (par s).arfI (par s).arfF r)) :
     FInv False par P (Msg.run l evs) ∧ SimF.RelF (mxOf par) (Msg.run l evs) (Timer.run ts (SimF.trRun l evs)) ∧
     SimF.SendsOk par P (SimF.trRun l evs) :=
-  let h := SimF.run_simF hp evs l ts hi hr hin (fun h => h.elim) hP
+  let h := SimF.run_simF hp evs l ts hi hr (SimF.runG_runInF evs l hin) (fun h => h.elim) hP
   ⟨h.1, h.2.1, h.2.2.2⟩
 
 open Coap.Sim Coap.Sched in
@@ -1163,7 +1165,7 @@ retransmissions are due, punctual or late:
 * both have shown the same transmissions (time, session, mid, retransmission number), in the same order;
 * both have shown the same outcome NACKs (time, session, mid, reason), in the same order. -/
 theorem m_refines_timer (now0 : Nat) (sess : List Msg.Sess) (evs : List Msg.Ev)
-    (hs : ∀ se ∈ sess, SessOk se) (hin : SimF.RunInF (Msg.init now0 sess) evs) :
+    (hs : ∀ se ∈ sess, SessOk se) (hin : RunG (Msg.init now0 sess) evs) :
     let l := Msg.run (Msg.init now0 sess) evs
     let ts := Timer.run (Timer.init now0) (SimF.trRun (Msg.init now0 sess) evs)
     ts.now ≤ l.now ∧
@@ -1171,34 +1173,36 @@ theorem m_refines_timer (now0 : Nat) (sess : List Msg.Sess) (evs : List Msg.Ev)
     SimF.txsS ts.outs = SimF.txsM l.out ∧ SimF.nksS ts.outs = SimF.nksM l.out := by
   intro l ts
   have := (SimF.run_simF (pu := False) (P := fun _ _ _ => True) (gpar_of sess hs) evs _ (Timer.init now0)
-    (finv_init False _ now0 sess hs) (SimF.relF_init _ now0 sess) hin (fun h => h.elim) (fun _ _ _ _ => trivial)).2.1
+    (finv_init False _ now0 sess hs) (SimF.relF_init _ now0 sess) (SimF.runG_runInF _ _ hin) (fun h => h.elim)
+    (fun _ _ _ _ => trivial)).2.1
   exact ⟨this.now, this.pend, this.txs, this.nacks⟩
 
 open Coap.Sim Coap.Sched in
 /-- **m_schedule_via_timer** (FULL — `retransmit_schedule` lifted from S to M THROUGH the simulation, NSTART-delayed messages
-included): in every punctual run over the alphabet, EVERY transmission `tx t s mid k con` M ever emits is a Confirmable,
+included): in every punctual run over the C06 alphabet, EVERY transmission `tx t s mid k true` of a Confirmable M ever emits
 belongs to a `coap_send` of (s, mid) in the run with PRNG byte `r`, its first transmission `tx t0 s mid 0` is in the outputs
 — for a message that waited for an NSTART slot, `t0` is the instant it left the delay queue —, `t = t0 + (2^k − 1)·T` with
 `T = coap_calc_timeout(session parameters, r)` drawn ONCE at that submission, and `k ≤ MAX_RETRANSMIT`. -/
 theorem m_schedule_via_timer (now0 : Nat) (sess : List Msg.Sess) (evs : List Msg.Ev)
-    (hs : ∀ se ∈ sess, SessOk se) (hin : SimF.RunInF (Msg.init now0 sess) evs) (hpu : Punctual (Msg.init now0 sess) evs) :
-    ∀ t s mid k con, Msg.Out.tx t s mid k con ∈ (Msg.run (Msg.init now0 sess) evs).out →
-      con = true ∧ ∃ t0 r, Msg.Ev.submit s true mid r ∈ evs ∧
+    (hs : ∀ se ∈ sess, SessOk se) (hin : RunG (Msg.init now0 sess) evs) (hpu : Punctual (Msg.init now0 sess) evs) :
+    ∀ t s mid k, Msg.Out.tx t s mid k true ∈ (Msg.run (Msg.init now0 sess) evs).out →
+      ∃ t0 r, Msg.Ev.submit s true mid r ∈ evs ∧
         Msg.Out.tx t0 s mid 0 true ∈ (Msg.run (Msg.init now0 sess) evs).out ∧
         t = sched t0 (calcTimeout (parOf sess s).atI (parOf sess s).atF (parOf sess s).arfI (parOf sess s).arfF r) k ∧
         k ≤ (parOf sess s).maxRtx := by
-  intro t s mid k con hmem
+  intro t s mid k hmem
   obtain ⟨_, hr, hok, hsend⟩ := SimF.run_simF (pu := True) (P := fun s mid T => ∃ r, Msg.Ev.submit s true mid r ∈ evs ∧
       T = calcTimeout (parOf sess s).atI (parOf sess s).atF (parOf sess s).arfI (parOf sess s).arfF r)
-    (gpar_of sess hs) evs _ (Timer.init now0) (finv_init True _ now0 sess hs) (SimF.relF_init _ now0 sess) hin
+    (gpar_of sess hs) evs _ (Timer.init now0) (finv_init True _ now0 sess hs) (SimF.relF_init _ now0 sess)
+    (SimF.runG_runInF _ _ hin)
     (fun _ => hpu) (fun s mid r h => ⟨r, h, rfl⟩)
   have hor := Timer.run_orig (Q := fun s mid T mx => (∃ r, Msg.Ev.submit s true mid r ∈ evs ∧
       T = calcTimeout (parOf sess s).atI (parOf sess s).atF (parOf sess s).arfI (parOf sess s).arfF r) ∧
       mx = (parOf sess s).maxRtx) _ (Timer.init now0) (Timer.orig_init _ now0) hsend
-  obtain ⟨hc, t0, T, mx, hS⟩ := SimF.tx_M_to_S hr.txs hmem
+  obtain ⟨t0, T, mx, hS⟩ := SimF.tx_M_to_S hr.txs hmem
   obtain ⟨hsch, hk⟩ := retransmit_schedule now0 _ (hok trivial) t s mid k t0 T mx hS
   obtain ⟨⟨⟨r, hsub, hT⟩, hmx⟩, h0⟩ := hor.2 t s mid k t0 T mx hS
-  exact ⟨hc, t0, r, hsub, SimF.tx_S_to_M hr.txs h0, by rw [← hT]; exact hsch, by rw [← hmx]; exact hk⟩
+  exact ⟨t0, r, hsub, SimF.tx_S_to_M hr.txs h0, by rw [← hT]; exact hsch, by rw [← hmx]; exact hk⟩
 
 open Coap.Sim Coap.Sched in
 /-- **m_single_outcome_via_timer** (FULL — `single_outcome` lifted from S to M THROUGH the simulation; every event list,
@@ -1210,12 +1214,12 @@ message in the send queue) plus the number of nodes still in the send queue.  So
 every moment — exactly one of: pending, completed by its ACK, or reported by ONE NACK.  (`m_single_outcome` adds: accepted = first
 transmissions + still delayed.) -/
 theorem m_single_outcome_via_timer (now0 : Nat) (sess : List Msg.Sess) (evs : List Msg.Ev)
-    (hs : ∀ se ∈ sess, SessOk se) (hin : SimF.RunInF (Msg.init now0 sess) evs) (s mid : Nat) :
+    (hs : ∀ se ∈ sess, SessOk se) (hin : RunG (Msg.init now0 sess) evs) (s mid : Nat) :
     SimF.tx0C s mid (Msg.run (Msg.init now0 sess) evs).out =
       nackC s mid (Msg.run (Msg.init now0 sess) evs).out + remC s mid (Msg.init now0 sess) evs +
         pendC s mid (Msg.run (Msg.init now0 sess) evs).q.nodes :=
   SimF.conserve_simF (gpar_of sess hs) s mid now0 evs _ (finv_init False _ now0 sess hs)
-    (SimF.relF_init _ now0 sess) hin
+    (SimF.relF_init _ now0 sess) (SimF.runG_runInF _ _ hin)
 
 /-- witness run with coincident instants: two sessions; at 2000 the retransmission of message (0,1) is due, and BEFORE the I/O
 loop runs a `coap_send` on session 1 and an RST for (0,1) arrive; then the I/O step -/
@@ -1227,9 +1231,9 @@ open Coap.Sim Coap.Sched in
 coincident-instants witness `cevs` (message 2 of session 0 waits for NSTART; RST for message 1 at the instant its
 retransmission is due lets message 2 in) are in scope `RunInF`, punctual, and NOT in the scope `RunIn` of the partial
 theorems; pending lists, transmission lists and NACK lists of S and M agree -/
-example : (∀ se ∈ [({ maxRtx := 1 } : Msg.Sess)], SessOk se) ∧ SimF.RunInF (Msg.init 0 [{ maxRtx := 1 }]) gevs ∧
+example : (∀ se ∈ [({ maxRtx := 1 } : Msg.Sess)], SessOk se) ∧ RunG (Msg.init 0 [{ maxRtx := 1 }]) gevs ∧
     Punctual (Msg.init 0 [{ maxRtx := 1 }]) gevs ∧ ¬ RunIn (Msg.init 0 [{ maxRtx := 1 }]) gevs ∧
-    SimF.RunInF (Msg.init 0 [{}, {}]) cevs ∧ Punctual (Msg.init 0 [{}, {}]) cevs ∧ ¬ RunIn (Msg.init 0 [{}, {}]) cevs ∧
+    RunG (Msg.init 0 [{}, {}]) cevs ∧ Punctual (Msg.init 0 [{}, {}]) cevs ∧ ¬ RunIn (Msg.init 0 [{}, {}]) cevs ∧
     SimF.txsM (Msg.run (Msg.init 0 [{}, {}]) cevs).out =
       [.tx 5000 0 2 1 true, .tx 5000 1 7 1 true, .tx 2000 0 2 0 true, .tx 2000 1 7 0 true, .tx 0 0 1 0 true] ∧
     SimF.nksM (Msg.run (Msg.init 0 [{}, {}]) cevs).out = [.nackRst 2000 0 1] ∧
@@ -1237,9 +1241,14 @@ example : (∀ se ∈ [({ maxRtx := 1 } : Msg.Sess)], SessOk se) ∧ SimF.RunInF
       SimF.txsM (Msg.run (Msg.init 0 [{}, {}]) cevs).out ∧
     SimF.tx0C 0 2 (Msg.run (Msg.init 0 [{}, {}]) cevs).out = 1 ∧
     pendC 0 2 (Msg.run (Msg.init 0 [{}, {}]) cevs).q.nodes = 1 ∧
-    SimF.RunInF (Msg.init 0 [{}, {}]) (cevs ++ [.connect 1, .rxBad 0 2, .setNow 9000, .prepare]) ∧
+    RunG (Msg.init 0 [{}, {}]) (cevs ++ [.connect 1, .rxBad 0 2, .setNow 9000, .prepare]) ∧
     remC 0 2 (Msg.init 0 [{}, {}]) (cevs ++ [.connect 1, .rxBad 0 2, .setNow 9000, .prepare]) = 1 ∧
-    pendC 0 2 (Msg.run (Msg.init 0 [{}, {}]) (cevs ++ [.connect 1, .rxBad 0 2, .setNow 9000, .prepare])).q.nodes = 0 := by
+    pendC 0 2 (Msg.run (Msg.init 0 [{}, {}]) (cevs ++ [.connect 1, .rxBad 0 2, .setNow 9000, .prepare])).q.nodes = 0 ∧
+    -- the wider-alphabet witness `xevs` (a NON, the NSTART gate, a response cancelling by token, connect, an invalid-code ACK)
+    SimF.txsS (Timer.run (Timer.init 0) (SimF.trRun (Msg.init 0 [{}]) xevs)).outs =
+      SimF.txsM (Msg.run (Msg.init 0 [{}]) xevs).out ∧
+    SimF.txsM (Msg.run (Msg.init 0 [{}]) xevs).out = [.tx 3500 0 2 1 true, .tx 500 0 2 0 true, .tx 0 0 1 0 true] ∧
+    (Timer.run (Timer.init 0) (SimF.trRun (Msg.init 0 [{}]) xevs)).pend = [] := by
   decide
 
 open Coap.Sim Coap.Sched in
@@ -1250,9 +1259,9 @@ example : GPar (parOf [{ maxRtx := 1 }]) ∧
     SimF.RelF (mxOf (parOf [{ maxRtx := 1 }])) (Msg.run (Msg.init 0 [{ maxRtx := 1 }]) (gevs.take 3))
       (Timer.run (Timer.init 0) (SimF.trRun (Msg.init 0 [{ maxRtx := 1 }]) (gevs.take 3))) ∧
     ((Msg.run (Msg.init 0 [{ maxRtx := 1 }]) (gevs.take 3)).getS 0).delayq.map (·.mid) = [2] ∧
-    SimF.RunInF (Msg.run (Msg.init 0 [{ maxRtx := 1 }]) (gevs.take 3)) (gevs.drop 3) := by
+    RunG (Msg.run (Msg.init 0 [{ maxRtx := 1 }]) (gevs.take 3)) (gevs.drop 3) := by
   have hs : ∀ se ∈ [({ maxRtx := 1 } : Msg.Sess)], SessOk se := by decide
-  have hin : SimF.RunInF (Msg.init 0 [{ maxRtx := 1 }]) (gevs.take 3) := by decide
+  have hin : RunG (Msg.init 0 [{ maxRtx := 1 }]) (gevs.take 3) := by decide
   have h := m_refines_timer_from (parOf [{ maxRtx := 1 }]) (fun _ _ _ => True) (gpar_of _ hs) (gevs.take 3) _ (Timer.init 0)
     (finv_init False _ 0 _ hs) (SimF.relF_init _ 0 _) hin (fun _ _ _ _ => trivial)
   exact ⟨gpar_of _ hs, h.1, h.2.1, by decide, by decide⟩
@@ -1272,7 +1281,7 @@ lists agree, the full observation lists do not. -/
 theorem sim_order_witness :
     let l := Msg.run (Msg.init 0 [{}]) oevs
     let ts := Timer.run (Timer.init 0) (SimF.trRun (Msg.init 0 [{}]) oevs)
-    SimF.RunInF (Msg.init 0 [{}]) oevs ∧
+    RunG (Msg.init 0 [{}]) oevs ∧
     l.out.filterMap obsM = [.nackRst 2500 0 5, .tx 2500 0 5 0 true, .tx 2000 0 5 1 true, .tx 0 0 5 0 true] ∧
     ts.outs.filterMap obsS = [.tx 2500 0 5 0 true, .nackRst 2500 0 5, .tx 2000 0 5 1 true, .tx 0 0 5 0 true] ∧
     SimF.txsS ts.outs = SimF.txsM l.out ∧ SimF.nksS ts.outs = SimF.nksM l.out ∧
